@@ -3,6 +3,8 @@ package sym
 import (
 	"fmt"
 	"go/types"
+	"net/netip"
+	"reflect"
 	"regexp"
 	"strings"
 
@@ -262,6 +264,47 @@ func registerIntrinsics(e *Engine) {
 	}
 	I["fmt.Sprintf"] = func(e *Engine, st *State, c ssa.CallInstruction, a []Value) []*State {
 		e.setResult(st, c, e.ConcreteStr("<fmt.Sprintf>"))
+		return nil
+	}
+	// ---- net/netip text parsing: native on concrete input
+	I["net/netip.ParseAddr"] = func(e *Engine, st *State, c ssa.CallInstruction, a []Value) []*State {
+		s := a[0].(StrV)
+		addrT := e.lookupNamed("net/netip", "Addr")
+		if cs, ok := StrConcrete(s); ok {
+			ip, err := netip.ParseAddr(cs)
+			if err != nil {
+				e.setResult(st, c, TupleV{E: []Value{e.zero(addrT), e.newError(st, "netip.ParseAddr: "+err.Error())}})
+				return nil
+			}
+			v := e.FromNative(st, reflect.ValueOf(&ip).Elem(), addrT)
+			e.setResult(st, c, TupleV{E: []Value{v, IfaceV{}}})
+			return nil
+		}
+		// symbolic input: only decided when no byte can be a digit or a colon (then it cannot be an address)
+		possible := len(s.B) > 0
+		hasColon, hasDigit := false, false
+		for _, b := range s.B {
+			vs, ok := valueSet(b, 0)
+			if !ok {
+				hasColon, hasDigit = true, true
+				break
+			}
+			if vs.Has(':') {
+				hasColon = true
+			}
+			for d := byte('0'); d <= '9'; d++ {
+				if vs.Has(d) {
+					hasDigit = true
+				}
+			}
+		}
+		if possible && (hasColon || hasDigit) {
+			if h, ok := e.Ctx["parseAddrSym"].(Intrinsic); ok {
+				return h(e, st, c, a)
+			}
+			e.fail("netip.ParseAddr on a symbolic string that may contain digits or ':'")
+		}
+		e.setResult(st, c, TupleV{E: []Value{e.zero(addrT), e.newError(st, "netip.ParseAddr: symbolic non-address")}})
 		return nil
 	}
 	// ---- regexp with concrete patterns (native objects)
